@@ -63,6 +63,8 @@ import types as _types
 
 # side-effect-free standard-library plumbing the interpreted code may use; these are part of the interpreter, not of the
 # analysed repository
+import builtins as _builtins
+_OPERATOR_NAMES = {n for n in getattr(_operator, "__all__", []) if not hasattr(_builtins, n)}
 import numbers as _numbers
 import decimal as _decimal
 PURE_MODULES = {"operator": _operator, "itertools": _itertools, "functools": _functools, "numbers": _numbers}
@@ -443,6 +445,8 @@ class Ev:
                 return PURE_BUILTINS[e.id]
             if PURE_MODULE_NAMES.get(e.id) is not None:
                 return PURE_MODULE_NAMES[e.id]
+            if e.id in _OPERATOR_NAMES:
+                return getattr(_operator, e.id)          # from operator import or_, add, neg ...
             raise Undecided("name " + e.id)
         if isinstance(e, (ast.Tuple, ast.List, ast.Set)) and any(isinstance(x, ast.Starred) for x in e.elts):
             vals = []
